@@ -95,8 +95,15 @@ class RaisingRule(Rule):
         self.exc = exc
 
     def satisfied(self, what, inquiry=None):
+        if self.exc in RAISE_BARE:
+            raise RAISE_BARE[self.exc]          # an exception *class*: instantiated without arguments
         raise {'ValueError': ValueError, 'KeyError': KeyError, 'RuntimeError': RuntimeError,
                'Exception': Exception, 'ZeroDivisionError': ZeroDivisionError}.get(self.exc, ValueError)('boom')
+
+
+RAISE_BARE = {'StopIteration': StopIteration, 'AssertionError': AssertionError,
+              'NotImplementedError': NotImplementedError, 'LookupError': LookupError}
+RAISE_NAMES = ['ValueError', 'KeyError', 'RuntimeError', 'Exception', 'ZeroDivisionError'] + sorted(RAISE_BARE)
 
 
 class ConstRule(Rule):
